@@ -55,56 +55,73 @@ def rejections(model, scope):
                 p = q
             if handler:
                 continue
-            keys = set()
-            if cond is not None:
-                # parsed fields the condition reads: directly, or through locals that were assigned from them
-                seen, todo = set(), [cond]
-                while todo:
-                    e = todo.pop()
-                    if isinstance(e, tuple):
-                        # ('component', expression, i): the i-th component of a pair / tuple valued expression
-                        _, whole, i = e
-                        if isinstance(whole, ast.Tuple) and i < len(whole.elts):
-                            todo.append(whole.elts[i])
-                            continue
-                        if isinstance(whole, ast.Call) and isinstance(whole.func, ast.Attribute) and isinstance(whole.func.value, ast.Name) and \
-                                whole.func.value.id in ('cls', 'self') and f.cls is not None:
-                            h = f.cls.resolve(whole.func.attr)
-                            if h is not None and not h.module.external and ('call', whole.func.attr, i) not in seen:
-                                seen.add(('call', whole.func.attr, i))
-                                from .astutil import returned
-                                todo.extend(('component', r, i) if isinstance(r, ast.Tuple) else r for r in returned(h.node))
-                                todo.extend(a for a in whole.args)
-                                continue
-                        e = whole
-                    for x in ast.walk(e):
-                        if isinstance(x, ast.Subscript) and isinstance(x.slice, ast.Constant) and isinstance(x.slice.value, str):
-                            keys.add(x.slice.value)
-                        elif isinstance(x, ast.Name) and x.id not in seen:
-                            seen.add(x.id)
-                            for d in ast.walk(f.node):
-                                if isinstance(d, ast.Assign) and len(d.targets) == 1 and isinstance(d.targets[0], ast.Name) and d.targets[0].id == x.id:
-                                    todo.append(d.value)
-                                elif isinstance(d, ast.Assign) and len(d.targets) == 1 and isinstance(d.targets[0], (ast.Tuple, ast.List)) and \
-                                        any(isinstance(t, ast.Name) and t.id == x.id for t in d.targets[0].elts):
-                                    idx = [i for i, t in enumerate(d.targets[0].elts) if isinstance(t, ast.Name) and t.id == x.id][0]
-                                    todo.append(('component', d.value, idx))        # ``q, r = divmod(parser['x'], 16)``, ``a, b = cls.helper(p)``
-                                elif isinstance(d, (ast.For, ast.While)) and any(
-                                        isinstance(c, ast.Call) and isinstance(c.func, ast.Attribute) and c.func.attr in ('append', 'extend', 'insert', 'add')
-                                        and isinstance(c.func.value, ast.Name) and c.func.value.id == x.id for c in ast.walk(d)):
-                                    # a collection filled in a loop: how much it holds is decided by what bounds the loop
-                                    todo.append(d.iter if isinstance(d, ast.For) else d.test)
-                        elif isinstance(x, ast.Call) and isinstance(x.func, ast.Attribute) and isinstance(x.func.value, ast.Name) and \
-                                x.func.value.id in ('cls', 'self') and f.cls is not None and ('call', x.func.attr) not in seen:
-                            # the value comes from a helper method of the class: what the helper returns
-                            seen.add(('call', x.func.attr))
-                            h = f.cls.resolve(x.func.attr)
-                            if h is not None and not h.module.external:
-                                from .astutil import returned
-                                todo.extend(returned(h.node))
+            keys = fields_read(cond, f) if cond is not None else set()
             out.setdefault(owner_construct(f), []).append(('%s[%s]' % (exc, ','.join(sorted(keys))), n))
     return out
 
+
+
+def fields_read(expr, f):
+    """the parser keys (``parser['key']``) an expression of function ``f`` reads: directly, through locals assigned from
+    them (also as one component of a tuple valued expression), through collections filled in a loop bounded by them, and
+    through the values helper methods of the class return"""
+    keys = set()
+    seen, todo = set(), [expr]
+    while todo:
+        e = todo.pop()
+        if isinstance(e, tuple):
+            # ('component', expression, i): the i-th component of a pair / tuple valued expression
+            _, whole, i = e
+            if isinstance(whole, ast.Tuple) and i < len(whole.elts):
+                todo.append(whole.elts[i])
+                continue
+            if isinstance(whole, ast.Call) and isinstance(whole.func, ast.Attribute) and isinstance(whole.func.value, ast.Name) and \
+                    whole.func.value.id in ('cls', 'self') and f.cls is not None:
+                h = f.cls.resolve(whole.func.attr)
+                if h is not None and not h.module.external and ('call', whole.func.attr, i) not in seen:
+                    seen.add(('call', whole.func.attr, i))
+                    from .astutil import returned
+                    for r in returned(h.node):
+                        if isinstance(r, ast.Tuple):
+                            todo.append(('component', r, i))
+                        else:
+                            keys |= fields_read(r, h)
+                    # tuple components are expressions of the helper: its own locals are resolved there
+                    sub = set()
+                    for r in returned(h.node):
+                        if isinstance(r, ast.Tuple) and i < len(r.elts):
+                            sub |= fields_read(r.elts[i], h)
+                    keys |= sub
+                    todo.extend(a for a in whole.args)
+                    continue
+            e = whole
+        for x in ast.walk(e):
+            if isinstance(x, ast.Subscript) and isinstance(x.slice, ast.Constant) and isinstance(x.slice.value, str):
+                keys.add(x.slice.value)
+            elif isinstance(x, ast.Name) and x.id not in seen:
+                seen.add(x.id)
+                for d in ast.walk(f.node):
+                    if isinstance(d, ast.Assign) and len(d.targets) == 1 and isinstance(d.targets[0], ast.Name) and d.targets[0].id == x.id:
+                        todo.append(d.value)
+                    elif isinstance(d, ast.Assign) and len(d.targets) == 1 and isinstance(d.targets[0], (ast.Tuple, ast.List)) and \
+                            any(isinstance(t, ast.Name) and t.id == x.id for t in d.targets[0].elts):
+                        idx = [i for i, t in enumerate(d.targets[0].elts) if isinstance(t, ast.Name) and t.id == x.id][0]
+                        todo.append(('component', d.value, idx))        # ``q, r = divmod(parser['x'], 16)``, ``a, b = cls.helper(p)``
+                    elif isinstance(d, (ast.For, ast.While)) and any(
+                            isinstance(c, ast.Call) and isinstance(c.func, ast.Attribute) and c.func.attr in ('append', 'extend', 'insert', 'add')
+                            and isinstance(c.func.value, ast.Name) and c.func.value.id == x.id for c in ast.walk(d)):
+                        # a collection filled in a loop: how much it holds is decided by what bounds the loop
+                        todo.append(d.iter if isinstance(d, ast.For) else d.test)
+            elif isinstance(x, ast.Call) and isinstance(x.func, ast.Attribute) and isinstance(x.func.value, ast.Name) and \
+                    x.func.value.id in ('cls', 'self') and f.cls is not None and ('call', x.func.attr) not in seen:
+                # the value comes from a helper method of the class: what the helper returns
+                seen.add(('call', x.func.attr))
+                h = f.cls.resolve(x.func.attr)
+                if h is not None and not h.module.external:
+                    from .astutil import returned
+                    for r in returned(h.node):
+                        keys |= fields_read(r, h)
+    return keys
 
 def owner_construct(f):
     """rejections are tabulated per class (``path:Class``), so that moving a check into a helper method of the same class does
